@@ -1,7 +1,7 @@
 """C06 — servers accept a request body only if it is exactly one complete valid document."""
 from ..facts import ty_adt, tystr, walk_ty, place_local, place_proj, op_place, strip_refs
 from ..cfg import CFG, Tracer, thaw
-from .. import dt
+from .. import dt, inline
 
 STD = "conjure_http::server::StdRequestDeserializer"
 OPT = "conjure_http::server::conjure::OptionalRequestDeserializer"
@@ -126,13 +126,14 @@ def check_state_ends(ctx, crate):
 
 # ---------------------------------------------------------------------------------------- R6.2
 def accumulator_locals(body, op):
-    """locals of type Bytes/BytesMut reached when tracing the returned operand back through moves / freeze"""
-    out = set()
+    """groups of locals of type Bytes/BytesMut reached when tracing the returned operand back through moves / freeze.
+    One group = one accumulator (the same buffer under several names, e.g. a helper's local moved into the caller's)."""
+    group = set()
     seen = set()
 
     def rec(o, depth=0):
         p = op_place(o)
-        if p is None or depth > 20:
+        if p is None or depth > 30:
             return
         l = place_local(p)
         if l in seen:
@@ -140,9 +141,9 @@ def accumulator_locals(body, op):
         seen.add(l)
         t = tystr(strip_refs(body.local_ty(l)))
         ds = body.defs().get(l, [])
-        if t in ("bytes::bytes::Bytes", "bytes::bytes_mut::BytesMut") and body.local_name(l):
-            out.add(l)
-            return
+        is_acc = t in ("bytes::bytes::Bytes", "bytes::bytes_mut::BytesMut")
+        if is_acc:
+            group.add(l)
         for bb, j, s in ds:
             if j == "T":
                 if s["call"]["name"] in ("freeze", "into", "from", "clone", "split", "split_to", "copy_to_bytes") and s["args"]:
@@ -154,7 +155,9 @@ def accumulator_locals(body, op):
                 elif "ref" in r:
                     rec({"cp": r["ref"]}, depth + 1)
     rec(op)
-    return out
+    named = sorted(l for l in group if body.local_name(l) and not body.locals[l].get("inl")) or sorted(l for l in group if body.local_name(l)) or sorted(group)
+    # one accumulator per independent named root in the caller; aliases (moves) are merged into the group of the first
+    return [frozenset(group)] if group else [], (named[0] if named else None)
 
 
 def slice_of(body, op, acc):
@@ -186,6 +189,37 @@ def refers_to_local(body, op, local, depth=0):
     return False
 
 
+def measures_local(body, op, local, depth=0):
+    """operand is `local` (by reference) or the value of len()/remaining() of `local`"""
+    if refers_to_local(body, op, local):
+        return True
+    p = op_place(op)
+    if p is None or depth > 6:
+        return False
+    ds = body.defs().get(place_local(p), [])
+    if len(ds) != 1:
+        return False
+    bb, j, s = ds[0]
+    if j == "T":
+        if s["call"]["name"] in ("len", "remaining") and s["args"]:
+            return refers_to_local(body, s["args"][0], local) or measures_local(body, s["args"][0], local, depth + 1)
+        if s["call"]["def"] in Tracer.TRANSPARENT and s["args"]:
+            return measures_local(body, s["args"][0], local, depth + 1)
+        return False
+    if "use" in s["r"]:
+        return measures_local(body, s["r"]["use"], local, depth + 1)
+    return False
+
+
+def is_limit_check(body):
+    """a local function taking the size limit (Option<usize>) — analysed on its own (check_limit_fn), never inlined"""
+    return any("Option<usize>" in tystr(body.local_ty(k)) for k in range(1, body.argc + 1)) and "Result<()" in tystr(body.local_ty(0))
+
+
+def expand_reader(crate, b):
+    return inline.expand(crate, b, depth=2, pred=lambda cb: not is_limit_check(cb))
+
+
 def check_reader(ctx, crate, b, limited=True, rule="R6.2"):
     """typestate over read_body / async_read_body"""
     F = ctx.F
@@ -202,16 +236,17 @@ def check_reader(ctx, crate, b, limited=True, rule="R6.2"):
     for k in range(1, b.argc + 1):
         pass
     for okbb, _, s in oks:
-        accs = accumulator_locals(b, s["r"]["ops"][0])
-        for acc in accs:
-            # data-adding events on acc
+        groups, shown = accumulator_locals(b, s["r"]["ops"][0])
+        for grp in groups:
+            accname = b.local_name(shown) if shown is not None else "?"
+            # data-adding events on the accumulator (under any of its names)
             events = []
             for bb, j, st in b.stmts():
-                if place_local(st["d"]) == acc and not place_proj(st["d"]) and "use" in st["r"]:
-                    if any(dt.derives_from_call(b, st["r"]["use"], ibb, vt) for ibb, _ in item_calls):
+                if place_local(st["d"]) in grp and not place_proj(st["d"]) and "use" in st["r"]:
+                    if any(dt.derives_from_call(b, st["r"]["use"], ibb, vt) for ibb, _ in item_calls) and not (op_place(st["r"]["use"]) is not None and place_local(op_place(st["r"]["use"])) in grp):
                         events.append((bb, "bind", st["ln"]))
             for bb, t in b.calls():
-                if t["call"]["name"] in ("extend_from_slice", "put", "put_slice", "extend", "unsplit", "push") and t["args"] and refers_to_local(b, t["args"][0], acc):
+                if t["call"]["name"] in ("extend_from_slice", "put", "put_slice", "extend", "unsplit", "push") and t["args"] and any(refers_to_local(b, t["args"][0], a_) for a_ in grp):
                     events.append((bb, "extend", t["ln"]))
             if not limited:
                 n_paths += len(events)
@@ -219,7 +254,7 @@ def check_reader(ctx, crate, b, limited=True, rule="R6.2"):
             checks = []
             for bb, t in b.calls():
                 f = t["call"]
-                if f.get("local") and len(t["args"]) == 2 and refers_to_local(b, t["args"][0], acc) and "Option<usize>" in tystr(b.local_ty(place_local(op_place(t["args"][1])))) :
+                if f.get("local") and len(t["args"]) == 2 and any(measures_local(b, t["args"][0], a_) for a_ in grp) and op_place(t["args"][1]) is not None and "Option<usize>" in tystr(b.local_ty(place_local(op_place(t["args"][1])))):
                     checks.append((bb, t))
             succ_edges = set()
             for cbb, t in checks:
@@ -246,11 +281,11 @@ def check_reader(ctx, crate, b, limited=True, rule="R6.2"):
                         if (x, y) in succ_edges:
                             continue
                         stack.append(y)
-                ctx.check(not bad, rule, b.loc(ln), f"{who}|unchecked|{kind}|{b.local_name(acc)}",
-                          f"{who}: data is added to `{b.local_name(acc)}` (line {ln}, {kind}) and an Ok return of it is reachable without crossing the success edge of a limit check on `{b.local_name(acc)}`",
-                          instance=f"{who}: every path from {kind} into `{b.local_name(acc)}` (line {ln}) to Ok crosses check_limit({b.local_name(acc)}) == Ok")
-            ctx.check(bool(checks) or not events, rule, b.loc(), f"{who}|checks|{b.local_name(acc)}", f"{who}: no limit check on the accumulator `{b.local_name(acc)}`", nontrivial=False)
-    ctx.floor(rule, f"{who}: data-adding events on returned accumulators", n_paths, 3)
+                ctx.check(not bad, rule, b.loc(ln), f"{who}|unchecked|{kind}|{accname}",
+                          f"{who}: data is added to `{accname}` (line {ln}, {kind}) and an Ok return of it is reachable without crossing the success edge of a limit check on `{accname}`",
+                          instance=f"{who}: every path from {kind} into `{accname}` (line {ln}) to Ok crosses check_limit({accname}) == Ok")
+            ctx.check(bool(checks) or not events, rule, b.loc(), f"{who}|checks|{accname}", f"{who}: no limit check on the accumulator `{accname}`", nontrivial=False)
+    ctx.floor(rule, f"{who}: data-adding events on returned accumulators", n_paths, 2)
     # exhaustion: a body is complete only when the stream reported its end — every Ok return is dominated by the None edge
     # of a match on an item obtained from the stream (not by an edge that a Some(..) item can also take)
     none_targets = set()
@@ -349,14 +384,17 @@ def check_limit_fn(ctx, crate, readers):
                 if atom[0] == "bin":
                     op, x, y = atom[1], atom[2], atom[3]
                     pol = dt.bool_polarity(allowed)
-                    xl = any(s[0] == "call" and b.blocks[s[1]]["t"]["call"]["name"] == "len" for s in tr.sources(x))
-                    yl = any(s[0] == "call" and b.blocks[s[1]]["t"]["call"]["name"] == "len" for s in tr.sources(y))
+                    # the measured size: len() of the buffer parameter, or a usize parameter (callers pass len(), see check_reader)
+                    size_param = [k for k in range(1, b.argc + 1) if tystr(b.local_ty(k)) == "usize"]
+                    xl = any(s[0] == "call" and b.blocks[s[1]]["t"]["call"]["name"] == "len" for s in tr.sources(x)) or bool(size_param and tr.root_locals(x) == set(size_param))
+                    yl = any(s[0] == "call" and b.blocks[s[1]]["t"]["call"]["name"] == "len" for s in tr.sources(y)) or bool(size_param and tr.root_locals(y) == set(size_param))
                     if yl and not xl:
                         op = {"Lt": "Gt", "Le": "Ge", "Gt": "Lt", "Ge": "Le"}.get(op, op)
                         xl, x, y = True, y, x
                     if not pol:
                         op = {"Lt": "Ge", "Le": "Gt", "Gt": "Le", "Ge": "Lt"}.get(op, op)
-                    lim = 2 in tr.root_locals(y) or any((s[0] == "field" and s[1] == ("arg", 2)) for s in tr.sources(y))
+                    lp = [k for k in range(1, b.argc + 1) if "Option<usize>" in tystr(b.local_ty(k))]
+                    lim = bool(lp) and (lp[0] in tr.root_locals(y) or any((s[0] == "field" and s[1] == ("arg", lp[0])) for s in tr.sources(y)))
                     conds.append((op, xl, lim))
             good = conds == [("Gt", True, True)]
         ctx.check(good, "R6.2", b.loc(), f"{b.name}|rejects-gt", f"{b.name}: must return Err exactly when buf.len() > limit (found conditions {conds if errs else 'no Err'}); bodies of exactly the limit are accepted, larger ones rejected, nothing is truncated",
@@ -368,9 +406,31 @@ def check_limit_fn(ctx, crate, readers):
 # ---------------------------------------------------------------------------------------- R6.3
 def check_error_classes(ctx, crate, bodies, rule, expected=INVALID_ARG, label="request-body"):
     n = 0
-    for b in bodies:
-        for x in [b] + crate.closures_of(b):
+    # the bodies plus everything private they reach: closures, private callees, private functions used as values
+    # (`.map_err(permission_denied)`): shared error constructors are judged wherever they live
+    fam_, work = {}, list(bodies)
+    while work:
+        x = work.pop()
+        key_ = getattr(x, "id", None)
+        if key_ in fam_:
+            continue
+        fam_[key_] = x
+        base = crate.body(x.id) or x
+        work += crate.closures_of(base)
+        for cid in getattr(x, "inlined", None) or []:
+            if crate.body(cid) is not None:
+                work += crate.closures_of(crate.body(cid))
+        for _, t in x.calls():
+            for f_ in [t["call"]] + [(a.get("c") or {}).get("fn") for a in t["args"]]:
+                if f_ and f_.get("local") and f_.get("id"):
+                    cb = crate.body(f_["id"])
+                    if cb is not None and cb.kind in ("fn", "assoc_fn") and cb.d.get("vis") != "pub" and len(fam_) < 200:
+                        work.append(cb)
+    if True:
+        for x in fam_.values():
             for bb, t in x.calls():
+                if t.get("inl") and t["inl"] in fam_:
+                    continue   # an inlined copy of a function that is also visited on its own
                 d = t["call"]["def"]
                 sites = []
                 if d in ERR_CTORS:
@@ -440,7 +500,7 @@ def run(ctx):
     F = ctx.F
     c = F.crate("conjure_http")
     ctx.units["conjure_http bodies"] = len(c.bodies)
-    std = find_impl_bodies(c, STD)
+    std = [(tr_, inline.expand(c, b_, depth=2, pred=lambda cb: cb.d.get("vis") != "pub" and not is_limit_check(cb))) for tr_, b_ in find_impl_bodies(c, STD)]
     ctx.floor("R6.1", "StdRequestDeserializer deserialize bodies", len(std), 2)
     for trait, b in std:
         check_pipeline(ctx, c, trait, b)
@@ -449,7 +509,7 @@ def run(ctx):
     readers = []
     for b in c.bodies:
         if b.kind == "fn" and b.name in ("read_body", "async_read_body") and b.id.startswith("conjure_http::private::"):
-            readers.append(real_body(c, b))
+            readers.append(expand_reader(c, real_body(c, b)))
     ctx.floor("R6.2", "body readers", len(readers), 2)
     for b in readers:
         check_reader(ctx, c, b)
@@ -460,7 +520,7 @@ def run(ctx):
     for adt in (OPT, BIN):
         scope += [b for _, b in find_impl_bodies(c, adt)]
     n = check_error_classes(ctx, c, scope, "R6.3")
-    ctx.floor("R6.3", "error construction sites on request-body paths", n, 8)
+    ctx.floor("R6.3", "error construction sites on request-body paths", n, 3)
     # R6.4 optional / binary / encoding lookup
     for trait, b in find_impl_bodies(c, OPT):
         cfg = CFG(b)
@@ -504,24 +564,40 @@ def run(ctx):
         ctx.check("conjure_http::private::APPLICATION_OCTET_STREAM" in consts and "http::header::name::CONTENT_TYPE" in consts, "R6.4", b.loc(), "binary|content-type",
                   f"BinaryRequestDeserializer must compare the Content-Type header with the octet-stream constant (constants used: {sorted(set(consts))})",
                   instance="binary body: Content-Type == APPLICATION_OCTET_STREAM")
-    rbe = [b for b in c.bodies if b.name == "request_body_encoding" and b.kind == "assoc_fn"]
+    rbe = [inline.expand(c, b, depth=2, pred=lambda cb: cb.d.get("vis") != "pub" and cb.name != "mime_matches") for b in c.bodies if b.name == "request_body_encoding" and b.kind == "assoc_fn"]
     for b in rbe:
-        tr = Tracer(b, through_calls=False)
+        cfg = CFG(b)
         oks = dt.ok_return_blocks(b)
-        finds = [(bb, t) for bb, t in b.calls() if t["call"]["name"] in ("find", "find_map", "position")]
-        ret_from_find = False
-        for bb, j, s in b.stmts():
-            pass
-        rets = [(bb, t) for bb, t in b.calls() if place_local(t["dest"]) == 0]
-        good = len(finds) == 1 and not oks and len([r for r in rets if r[1]["call"]["name"] in ("ok_or_else", "ok_or")]) == 1
-        if good:
-            r = [r for r in rets if r[1]["call"]["name"] in ("ok_or_else", "ok_or")][0]
-            good = dt.derives_from_call(b, r[1]["args"][0], finds[0][0])
-            # the predicate compares essences
+        finds = [(bb, t) for bb, t in b.calls() if t["call"]["name"] in ("find", "find_map")]
+        rets = [(bb, t) for bb, t in b.calls() if place_local(t["dest"]) in dt.return_aliases(b)]
+        conv = [r for r in rets if r[1]["call"]["name"] in ("ok_or_else", "ok_or")]
+        good, how = False, ""
+        # form A: encodings.iter().find(|e| mime_matches(content_type, e)).ok_or_else(error)
+        if len(finds) == 1 and not oks and len(conv) == 1 and dt.derives_from_call(b, conv[0][1]["args"][0], finds[0][0]):
             clos = [x for x in c.closures_of(b) if any(t["call"]["name"] == "mime_matches" for _, t in x.calls())]
-            good = good and len(clos) == 1
+            good, how = len(clos) == 1, "Ok only from find(mime_matches)"
+        # form B: for e in encodings { if mime_matches(content_type, e) { return Ok(e) } } Err(..)
+        elif oks and not finds:
+            good = True
+            for okbb, _, s_ in oks:
+                hit = False
+                for sbb, allowed, allv in dt.edge_conditions(cfg, okbb):
+                    atom = dt.switch_atom(b, sbb)
+                    if atom[0] == "call" and atom[1]["call"]["name"] == "mime_matches" and dt.bool_polarity(allowed) is True:
+                        def base_calls(op_):
+                            out_ = set()
+                            for q in Tracer(b, through_calls=True).sources(op_):
+                                while q[0] == "field":
+                                    q = q[1]
+                                if q[0] == "call":
+                                    out_.add(q)
+                            return out_
+                        a_src, v_src = base_calls(atom[1]["args"][1]), base_calls(s_["r"]["ops"][0])
+                        hit = bool(a_src & v_src)
+                good = good and hit
+            how = "Ok(e) only under mime_matches(content_type, e)"
         ctx.check(good, "R6.4", b.loc(), "request_body_encoding|no-fallback", "request_body_encoding must return exactly the registered encoding found by the media-type match, or an error (no fallback encoding)",
-                  instance="request_body_encoding: Ok only from find(mime_matches)")
+                  instance=f"request_body_encoding: {how}")
     mm = [b for b in c.bodies if b.name == "mime_matches"]
     for b in mm:
         ess = [t for _, t in b.calls() if t["call"]["name"] == "essence"]
